@@ -91,7 +91,7 @@ def emit(sc, buf, via, rnd=None):
         sc.line(nmea.line(payload=pay, fill=fill), p=0, dec=1)
 
 
-def emit_group(sc, buf, rnd, p=0, history=True):
+def emit_group(sc, buf, rnd, p=0, history=True, mixed_dec=False):
     """Sends a message as an in-order fragment group, optionally after an abandoned group (a parser that is
     not fresh): the decoded message must be the same as for the unfragmented sentence."""
     pay, fill = nmea.armor(buf.bytes(), buf.n)
@@ -102,7 +102,8 @@ def emit_group(sc, buf, rnd, p=0, history=True):
         sid0 = rnd.choice([None, 1, 3])
         n0 = rnd.randrange(2, 4)
         for k in range(1, rnd.randrange(2, n0 + 1)):
-            sc.line(nmea.line(n=n0, k=k, sid=sid0, payload=bytes(rnd.choice(nmea.ARMOR) for _ in range(rnd.randrange(1, 9)))), p, 1)
+            sc.line(nmea.line(n=n0, k=k, sid=sid0, payload=bytes(rnd.choice(nmea.ARMOR) for _ in range(rnd.randrange(1, 9)))), p,
+                    rnd.randrange(2) if mixed_dec else 1)
         if rnd.random() < 0.3:       # the first fragment of the abandoned group once more
             sc.line(nmea.line(n=n0, k=1, sid=sid0, payload=bytes(rnd.choice(nmea.ARMOR) for _ in range(5))), p, 1)
     parts = rnd.randrange(2, min(5, len(pay)) + 1)
@@ -110,7 +111,8 @@ def emit_group(sc, buf, rnd, p=0, history=True):
     cuts = [0] + cuts + [len(pay)]
     sid = rnd.choice([None, 1, 3, 8])
     for k in range(1, parts + 1):
-        sc.line(nmea.line(n=parts, k=k, sid=sid, payload=pay[cuts[k - 1]:cuts[k]], fill=fill if k == parts else 0), p, 1)
+        dec = 1 if (k == parts or not mixed_dec) else rnd.randrange(2)
+        sc.line(nmea.line(n=parts, k=k, sid=sid, payload=pay[cuts[k - 1]:cuts[k]], fill=fill if k == parts else 0), p, dec)
 
 
 def rand_message(tb, rnd, t=None, shape=None):
@@ -427,13 +429,36 @@ def fam_grammar(tier):
     sc.unit()
     sc.new(0)
     nums = [b"", b"0", b"1", b"2", b"5", b"6", b"9", b"05", b"06", b"10", b"255", b"256", b"0255", b"0256", b"00001",
-            b"999", b"99999999999999999999", b"-1", b"+1", b" 1", b"1 ", b"1.0", b"0x1", b"a", b"1a"]
+            b"999", b"99999999999999999999", b"-1", b"+1", b" 1", b"1 ", b"1.0", b"0x1", b"a", b"1a",
+            b"257", b"258", b"259", b"260", b"261", b"300", b"511", b"512", b"513", b"1000", b"1001", b"1002", b"1005", b"1255",
+            b"2001", b"3001", b"10001", b"65536", b"65537", b"4294967296", b"4294967297", b"18446744073709551617", b"0000000257"]
     pay = b"15M67FC000G?ufbE`FepT@3n00Sa"
     for v in nums:
         sc.line(nmea.line(n=v, k=b"1", payload=pay), 0, 0)
         sc.line(nmea.line(n=b"1", k=v, payload=pay), 0, 0)
         sc.line(nmea.line(n=b"1", k=b"1", sid=v, payload=pay), 0, 0)
         sc.line(nmea.line(payload=pay, fill=v), 0, 0)
+    # the same field values on first / middle / last fragments of a group in progress
+    for v in nums:
+        sc.new(0)
+        sc.line(nmea.line(n=3, k=1, sid=1, payload=b"15M"), 0, 0)
+        sc.line(nmea.line(n=3, k=2, sid=1, payload=b"15M", fill=v), 0, 0)
+        sc.line(nmea.line(n=3, k=2, sid=v, payload=b"15M"), 0, 0)
+        sc.line(nmea.line(n=v, k=2, sid=1, payload=b"15M"), 0, 0)
+        sc.line(nmea.line(n=3, k=v, sid=1, payload=b"15M"), 0, 0)
+        sc.line(nmea.line(n=2, k=1, sid=2, payload=b"15M", fill=v), 0, 0)
+        sc.line(nmea.line(n=2, k=2, sid=2, payload=b"15M", fill=v), 0, 0)
+    sc.new(0)
+    # more than eight checksum digits: only the first eight are read, the rest is ignored
+    for target in (0x00, 0x01, 0x0F, 0x02, 0x10, 0x7A):
+        p2 = bytearray(pay)
+        p2[-1] ^= nmea.xor(nmea.body(payload=pay)) ^ target
+        if p2[-1] in (44, 42):
+            continue
+        body = nmea.body(payload=bytes(p2))
+        for form in ("%08X0", "%08XF", "%08XA5", "%08X00000000", "0000000%02X", "00000000%02X", "%07X%02X", "%08x1f"):
+            v = (form % ((target >> 4, target) if form.count("%") == 2 else target)).encode()
+            sc.line(b"!" + body + b"*" + v, 0, 0)
     for ckform in (b"", b"7", b"07", b"007", b"0000007", b"00000007", b"000000007", b"100", b"FF", b"ff", b"fF",
                    b"0FF", b"1FF", b"G7", b"7G", b" 7", b"0x7"):
         body = nmea.body(payload=pay)
@@ -566,6 +591,18 @@ def fam_fields(tier):
                 if rnd.random() < 0.2:
                     both(noise_line(rnd))
                 both(nmea.line(n=n, k=k, sid=sid, payload=rand_armor(rnd, rnd.randrange(1, 9)), fill=rnd.randrange(6) if k == n else 0))
+    # numbers just outside 0..255, on singles and inside a group
+    sc.unit()
+    sc.new(0)
+    sc.new(1)
+    for v in (b"256", b"257", b"300", b"999", b"1000", b"1001", b"1005", b"1255", b"3001", b"65537", b"4294967297"):
+        both(nmea.line(n=v, k=b"1", payload=b"15M"))
+        both(nmea.line(n=b"1", k=v, payload=b"15M"))
+        both(nmea.line(n=b"1", k=b"1", sid=v, payload=b"15M"))
+        both(nmea.line(payload=b"15M", fill=v))
+        both(nmea.line(n=2, k=1, sid=5, payload=b"15M"))
+        both(nmea.line(n=2, k=2, sid=v, payload=b"15M"))
+        both(nmea.line(n=2, k=2, sid=5, payload=b"15M"))
     # one long group: fragment numbers 1..255 (and counts up to 255)
     for big in ([255, 40] if thorough else [255]):
         sc.unit()
@@ -698,6 +735,25 @@ def fam_types(tier):
             if nbytes:
                 d[0] = (t << 2) | (d[0] & 3)
             sc.decode(bytes(d))
+    # unarmored payloads every byte of which happens to be an armoring character
+    sc.unit()
+    for t in range(64):
+        firsts = [b0 for b0 in nmea.ARMOR if (b0 >> 2) == t]
+        for b0 in firsts:
+            for nbytes in sorted({5, 9, 12, 20, 21, 34, 39, 53} | {(s[1] + 7) // 8 for s in S if s[0] == t}):
+                for rep in range(3 if thorough else 1):
+                    sc.decode(bytes([b0]) + rand_armor(rnd, nbytes - 1))
+    # groups of different types on one parser with the decode flag differing from line to line
+    for gi in range(300 if thorough else 40):
+        sc.unit()
+        sc.new(0)
+        for rep in range(3):
+            emit_group(sc, rand_message(tb, rnd), rnd, history=True, mixed_dec=True)
+            # an abandoned decodable group of another type, opened with decoding on
+            other = rand_message(tb, rnd)
+            pay, fill = nmea.armor(other.bytes(), other.n)
+            if len(pay) > 3:
+                sc.line(nmea.line(n=2, k=1, sid=rnd.choice([None, 1, 3, 8]), payload=pay[:len(pay) // 2]), 0, 1)
     # the first six bits ALONE decide: the same sentence after payloads that failed to decode, after other
     # messages, and on a fresh parser
     for s in S:
@@ -1220,6 +1276,17 @@ def random_stream(rnd, length, ids, maxn=9, valid_only=True):
             grp = merged
         elif mode == 6 and n > 1:                    # stale fragment after the delivery
             grp.append(dict(n=n + 1, k=n + 1, sid=sid, payload=rand_armor(rnd, 4), fill=0))
+        elif mode == 8 and n > 1 and sid is not None:   # a header that equals the next fragment's modulo 256
+            i = rnd.randrange(1, n)
+            which = rnd.randrange(3)
+            g = dict(grp[i])
+            if which == 0:
+                g["sid"] = str(sid + 256).encode()
+            elif which == 1:
+                g["k"] = str(g["k"] + 256).encode()
+            else:
+                g["n"] = str(g["n"] + 256).encode()
+            grp.insert(i, g)
         elif mode == 7 and not valid_only:           # numbering outside 1 <= k <= n
             grp.append(dict(n=rnd.choice([0, 1, 2]), k=rnd.choice([0, 3, 200]), sid=sid, payload=rand_armor(rnd, 4), fill=0))
         lines += grp
